@@ -396,7 +396,7 @@ lp_id_t CountRegions(struct topology *topology)
 lp_id_t CountDirections(lp_id_t from, struct topology *topology)
 {
 	lp_id_t neighbors;
-	uint32_t x, y;
+	uint32_t x, y, rows;
 
 	assert(topology);
 
@@ -410,12 +410,15 @@ lp_id_t CountDirections(lp_id_t from, struct topology *topology)
 			neighbors = 6;
 			y = from / topology->width;
 			x = from - y * topology->width;
-			if(y == 0 || y == topology->height - 1)
-				neighbors -= x == 0 ? 1 : 2;
+			// The rows above and below this one that exist; each missing one takes two directions away
+			rows = (y != 0) + (y != topology->height - 1);
+			neighbors -= 2 * (2 - rows);
+			// In the first column W is missing, and so are NW and SW if the row is even
 			if(x == 0)
-				neighbors -= 3 - 2 * (y & 1U);
+				neighbors -= 1 + ((y & 1U) ? 0 : rows);
+			// In the last column E is missing, and so are NE and SE if the row is odd
 			if(x == topology->width - 1)
-				neighbors -= 3 - 2 * (1 - (y & 1U));
+				neighbors -= 1 + ((y & 1U) ? rows : 0);
 			return neighbors;
 
 		case TOPOLOGY_TORUS:
@@ -427,9 +430,13 @@ lp_id_t CountDirections(lp_id_t from, struct topology *topology)
 			neighbors = 4;
 			y = from / topology->width;
 			x = from - y * topology->width;
-			if(x == 0 || x == topology->width - 1)
+			if(x == 0)
 				neighbors--;
-			if(y == 0 || y == topology->height - 1)
+			if(x == topology->width - 1)
+				neighbors--;
+			if(y == 0)
+				neighbors--;
+			if(y == topology->height - 1)
 				neighbors--;
 			return neighbors;
 
